@@ -224,7 +224,9 @@ def plan(tier, seed):
          ("storage", dict(skeleton="T1", n=3)),
          ("storage", dict(skeleton="T1", n=2, fixed=2)),
          ("storage", dict(skeleton="T7", n=2, args={"offset_hours": 1}, deleting=["jobdel"])),
-         ("storage", dict(skeleton="T1", n=2, sym_sign=["job"], base_zero=True))]
+         ("storage", dict(skeleton="T1", n=2, sym_sign=["job"], base_zero=True)),
+         # two writers whose windows are disjoint (a gap of hours in which nothing is stored): expiries by time stamp
+         ("storage", dict(skeleton="T7", n=2, args={"offset_hours": 4}))]
     if tier == "thorough":
         p += [("servers", dict(n=3, type1=a, type2=b)) for a, b in (("autoscaling", "on-premise"), ("serverless", "on-premise"))]
         p += [("servers", dict(n=3, type1="on-premise", type2="autoscaling", fixed1=2, sym_fixed=True)),
